@@ -268,17 +268,27 @@ func TestVerif_C08_Errors(t *testing.T) {
 		// roots that are standard-library wrappers (have Unwrap): Cause() must stop at them
 		{"fmt-w", func() error { return fmtW }},
 		{"net.OpError", func() error { return sentinelOp }},
+		// error VALUES of types that cannot be compared or hashed (a struct holding a slice): as the root, and as a foreign
+		// link with a Cause() of its own, which Cause() follows like one of the package's own
+		{"uncomparable", func() error { return sliceErr{[]string{"a", "b"}} }},
+		{"uncomparable-link", func() error { return sliceLink{[]string{"x"}, io.ErrUnexpectedEOF} }},
 	}
 	wrappers := []string{"Wrap", "Wrapf", "WithMessage", "WithStack"}
 	apply := func(wn string, err error, level int) (error, string) {
 		switch wn {
 		case "Wrap":
 			msg := fmt.Sprintf("wrap %d: x", level)
+			if level%2 == 1 {
+				msg = fmt.Sprintf("wrap %d: disk 100%% full %%d %%!v", level) // a message is text, not a format
+			}
 			return oe.Wrap(err, msg), msg
 		case "Wrapf":
 			return oe.Wrapf(err, "wrapf %d %s", level, "%v"), fmt.Sprintf("wrapf %d %s", level, "%v")
 		case "WithMessage":
 			msg := fmt.Sprintf("message %d", level)
+			if level%2 == 0 {
+				msg = fmt.Sprintf("message %d: 50%% done %%s %%v", level)
+			}
 			return oe.WithMessage(err, msg), msg
 		}
 		return oe.WithStack(err), ""
@@ -333,8 +343,19 @@ func TestVerif_C08_Errors(t *testing.T) {
 						return
 					}
 				}
-				if oe.Cause(e) != base {
-					m.Violationf("c08:errors:cause-not-root", rep, "Cause() = %T %q, root is %T %q", oe.Cause(e), oe.Cause(e), base, base)
+				switch b := base.(type) {
+				case sliceErr:
+					if c, ok := oe.Cause(e).(sliceErr); !ok || len(c.tags) != len(b.tags) {
+						m.Violationf("c08:errors:cause-not-root", rep, "Cause() = %T, root is an (uncomparable) %T", oe.Cause(e), base)
+					}
+				case sliceLink:
+					if oe.Cause(e) != b.cause {
+						m.Violationf("c08:errors:cause-not-root", rep, "Cause() = %T %q, the chain ends in %T %q behind a foreign link with Cause()", oe.Cause(e), oe.Cause(e), b.cause, b.cause)
+					}
+				default:
+					if oe.Cause(e) != base {
+						m.Violationf("c08:errors:cause-not-root", rep, "Cause() = %T %q, root is %T %q", oe.Cause(e), oe.Cause(e), base, base)
+					}
 				}
 				want := strings.Join(append(msgs, base.Error()), ": ")
 				if e.Error() != want {
@@ -349,15 +370,30 @@ func TestVerif_C08_Errors(t *testing.T) {
 							}
 						}
 					}
-					if verb == "%v" && s != want {
-						m.Violationf("c08:errors:v-differs-from-Error", rep, "%%v = %q", s)
+					if (verb == "%v" || verb == "%s") && s != want {
+						m.Violationf("c08:errors:v-differs-from-Error", rep, "%s = %q, Error() = %q", verb, s, want)
 					}
+				}
+				if s := fmt.Sprint(e); s != want {
+					m.Violationf("c08:errors:v-differs-from-Error", rep, "fmt.Sprint = %q, Error() = %q", s, want)
 				}
 				m.Classf("%s/%s", name, rt.name)
 			})
 		}
 	})
 }
+
+type sliceErr struct{ tags []string }
+
+func (e sliceErr) Error() string { return "uncomparable root " + strings.Join(e.tags, ",") }
+
+type sliceLink struct {
+	tags  []string
+	cause error
+}
+
+func (e sliceLink) Error() string { return "uncomparable link " + strings.Join(e.tags, ",") + ": " + e.cause.Error() }
+func (e sliceLink) Cause() error  { return e.cause }
 
 type foreignErr struct{ s string }
 
